@@ -237,7 +237,9 @@ def run(ctx):
     return core.finish(ctx)
 
 
-def check_cfg(ctx, fx, cfg):
+def check_strong_kinds(ctx, fx, cfg, RULE="R15.1"):
+    """every strong handle kind keeps alive both halves of the channel that the context and the weak handles need in order to
+    upgrade (shared with C09: a subscriber held by any strong handle is reachable through the broker's weak sender)"""
     # needed set
     needed = {}
     n_sites = 0
@@ -252,12 +254,12 @@ def check_cfg(ctx, fx, cfg):
             if "Weak<dyn channel::%s<" % tr in st or (t.get("callee") in generic_upgraders and "<dyn channel::%s<" % tr in st):
                 needed.setdefault(tr, []).append((f["def"], t["l"]))
                 n_sites += 1
-    ctx.floor("R15.1", "Weak::upgrade sites on channel halves (%s)" % cfg, n_sites, 6)
-    ctx.require(set(needed) == {"TxFn", "ForceTxFn"}, "R15.1", "needed-set@" + cfg, "needed set changed: %s" % sorted(needed), detail={k: len(v) for k, v in needed.items()})
+    ctx.floor(RULE, "Weak::upgrade sites on channel halves (%s)" % cfg, n_sites, 6)
+    ctx.require(set(needed) == {"TxFn", "ForceTxFn"}, RULE, "needed-set@" + cfg, "needed set changed: %s" % sorted(needed), detail={k: len(v) for k, v in needed.items()})
     for k in own.STRONG_KINDS:
         o = fx.owns_of(k, "adt")
         inst = "%s@%s" % (k.split("::")[-1], cfg)
-        if not ctx.require(o is not None, "R15.1", inst, "strong handle kind %s not found" % k):
+        if not ctx.require(o is not None, RULE, inst, "strong handle kind %s not found" % k):
             continue
         have = set()
         for a in o["atoms"]:
@@ -267,7 +269,11 @@ def check_cfg(ctx, fx, cfg):
             if c == "strong_force":
                 have.add("ForceTxFn")
         missing = sorted(set(needed) - have)
-        ctx.require(not missing, "R15.1", inst, "%s does not keep alive what the context and weak handles need: missing strong Arc<dyn %s>" % (k, ", ".join(missing)), fn=k, site=fx.adts[k]["loc"], detail={"owns": sorted(have)})
+        ctx.require(not missing, RULE, inst, "%s does not keep alive what the context and weak handles need: missing strong Arc<dyn %s>" % (k, ", ".join(missing)), fn=k, site=fx.adts[k]["loc"], detail={"owns": sorted(have)})
+
+
+def check_cfg(ctx, fx, cfg):
+    check_strong_kinds(ctx, fx, cfg, "R15.1")
     # R15.2 handle-building sites
     import loops
     births = {"call:" + d_ for d_ in birth_fns(fx)}  # create_loop / create_loop_on_stream (and what forwards to them) hand out the address created at birth
